@@ -164,6 +164,46 @@ func lenExact(rng *rand.Rand, idx int) []lenOp {
 	return ops
 }
 
+// lenSweep: channel 1's status bit and the sweep unit: calculations in negate mode before and after a trigger, NR10
+// rewritten with the negate bit cleared (which switches the channel off only if a calculation has used negate mode
+// since the last trigger), add mode close to the overflow
+func lenSweep(rng *rand.Rand, idx int) []lenOp {
+	W := func(a, v int) lenOp { return lenOp{w: true, addr: a, v: v} }
+	ops := lenPreamble(rng)
+	ops = append(ops, lenOp{n: rng.Intn(4096)})
+	p := 1 + rng.Intn(3)
+	sh := []int{0, 0, 1, 3, 7}[idx%5]
+	neg := 8
+	if idx%7 == 6 {
+		neg = 0
+	}
+	f := []int{0x400, 0x7ff, 0x700, 0x100, 0x555}[rng.Intn(5)]
+	nr10 := p<<4 | neg | sh
+	ops = append(ops, W(0xff12, 0xf0), W(0xff10, nr10), W(0xff13, f&0xff), W(0xff14, 0x80|f>>8))
+	// some sweep periods: calculations happen (or, with the short waits, do not)
+	ops = append(ops, lenOp{n: 4096 * 2 * p * rng.Intn(3)}, lenOp{n: rng.Intn(8192)})
+	exit := (rng.Intn(8) << 4) | []int{0, 0, 1, 7}[rng.Intn(4)] // negate cleared
+	switch (idx / 5) % 5 {
+	case 0:
+		// triggered again with the same NR10, negate cleared at once
+		ops = append(ops, W(0xff14, 0x80|f>>8), W(0xff10, exit))
+	case 1:
+		// shift 0 while it is triggered again (no calculation at the trigger), negate cleared before the next sweep clock
+		ops = append(ops, W(0xff10, p<<4|8), W(0xff14, 0x80|f>>8), lenOp{n: rng.Intn(2000)}, W(0xff10, exit))
+	case 2:
+		// not triggered again
+		ops = append(ops, W(0xff10, exit))
+	case 3:
+		// triggered again, at least one more sweep period, negate cleared
+		ops = append(ops, W(0xff14, 0x80|f>>8), lenOp{n: 4096*2*p + rng.Intn(8192)}, W(0xff10, exit))
+	default:
+		// negate rewritten as it is (nothing happens), then cleared, then set again
+		ops = append(ops, W(0xff10, nr10|8), lenOp{n: rng.Intn(3000)}, W(0xff14, 0x80|f>>8), W(0xff10, nr10|8), W(0xff10, exit), W(0xff10, nr10|8))
+	}
+	ops = append(ops, lenOp{n: 3000}, W(0xff14, 0x80|f>>8), lenOp{n: 20000})
+	return ops
+}
+
 // lenROM: a sound test ROM on the full machine. The harness first defines the length counters and cycles the power
 // (as every scenario of this family does), then the ROM runs; every CPU write to FF10-FF26 is logged with NR52 read
 // right after it (before the hardware part of that cycle), and NR52 is read after every cycle, run-length compressed.
@@ -239,13 +279,18 @@ func apuGenOther(c *Ctx, w *trace.Writer) {
 		rng := c.Rand(1901)
 		count := 400
 		if c.Thorough() {
-			count = 4000
+			count = 12000
 		}
 		for i := 0; i < count; i++ {
 			seed := rng.Int63n(1 << 40)
+			if i%5 == 4 || i%5 == 2 {
+				seed &= 1<<34 - 1 // seed and index travel in one JSON number (exact below 2^53)
+			}
 			r2 := rand.New(rand.NewSource(seed))
 			if i%5 == 4 {
-				w.Put(lenRun(fmt.Sprintf("apu-len-%d", i), "lenexact", seed*1000+int64(i/5), lenExact(r2, i/5)))
+				w.Put(lenRun(fmt.Sprintf("apu-len-%d", i), "lenexact", seed*100000+int64(i/5), lenExact(r2, i/5)))
+			} else if i%5 == 2 {
+				w.Put(lenRun(fmt.Sprintf("apu-len-%d", i), "lensweep", seed*100000+int64(i/5), lenSweep(r2, i/5)))
 			} else {
 				w.Put(lenRun(fmt.Sprintf("apu-len-%d", i), "len", seed, lenSchedule(r2, 40)))
 			}
@@ -277,7 +322,9 @@ func apuRerunOther(c *Ctx, w *trace.Writer, s *trace.Scenario) {
 	case "len":
 		w.Put(lenRun(s.ID, fam, seed, lenSchedule(rand.New(rand.NewSource(seed)), 40)))
 	case "lenexact":
-		w.Put(lenRun(s.ID, fam, seed, lenExact(rand.New(rand.NewSource(seed/1000)), int(seed%1000))))
+		w.Put(lenRun(s.ID, fam, seed, lenExact(rand.New(rand.NewSource(seed/100000)), int(seed%100000))))
+	case "lensweep":
+		w.Put(lenRun(s.ID, fam, seed, lenSweep(rand.New(rand.NewSource(seed/100000)), int(seed%100000))))
 	case "lenrom":
 		w.Put(lenROM(s.ID, trace.Str(r[2]), trace.Int(r[3])))
 	case "lencal":
